@@ -296,6 +296,10 @@ def run(check, repo, tier):
                 core_n += 1
     check.floor(core_n >= 300, f"C01: only {core_n} obligations decided for receiver GCodeCore (floor 300)")
     n1 = helper_forms(check, cr.program)
+    # mode context managers and absolute bypasses used inside an open mode block (C11's nested scenarios): each exit
+    # restores the mode of its own entry, and the delivered G90/G91 leave the machine in the mode the builder reports
+    from . import c11
+    c11.nested_mode_contexts(check, cr.program, "R4")
     # the formatter contract this check relies on (a coordinate word is a faithful fixed-point rendering of the value):
     # discharged here as well, by the formatter rules of C08
     check.rule("R6", "formatter contract: number() renders its argument in fixed point at the configured precision behind a finiteness guard, "
